@@ -34,6 +34,8 @@ RULE = ("cell (static): (Dw, Dy, N, observation class) -> recorded history of th
 STATIC_Q = [(1, 1, 1), (2, 1, 3), (1, 2, 2), (3, 2, 4), (2, 2, 3), (2, 3, 2), (3, 1, 1), (4, 1, 2),
             (4, 2, 1)]
 STATIC_T = STATIC_Q + [(4, 2, 6), (3, 3, 5), (1, 3, 6), (4, 1, 5), (3, 1, 2), (4, 3, 3), (5, 2, 2)]
+ANISO_Q = [(4, 2), (3, 1)]
+ANISO_T = ANISO_Q + [(3, 2), (5, 2), (4, 1), (4, 3)]
 SSM_Q = [(1, 1, 3), (2, 1, 5), (2, 2, 4), (3, 2, 5)]
 SSM_T = SSM_Q + [(1, 2, 8), (2, 1, 12), (3, 2, 12), (3, 3, 8), (2, 2, 10)]
 
@@ -49,6 +51,10 @@ def cells(tier, seed):
         for ok in ("full", "diag") + (("identity",) if Dz == Dy else ()):
             out.append({"part": "ssm", "Dz": Dz, "Dy": Dy, "T": T, "ok": ok, "reps": reps,
                         "group": ["k", Dz, Dy], "cost": T})
+    for (Dw, Dy) in (ANISO_Q if tier == "quick" else ANISO_T):
+        for ok in ("full", "diag"):
+            out.append({"part": "aniso", "Dw": Dw, "Dy": Dy, "ok": ok, "reps": reps,
+                        "group": ["a", Dw, Dy], "cost": 4})
     return out
 
 
@@ -409,8 +415,127 @@ def run_ssm(cell, rec, seed):
                         "final_evidence": ref[-1][2]})
 
 
+def run_aniso(cell, rec, seed):
+    """Anisotropic vague prior, precise partial observations (Dy < Dw), several sequential
+    updates: a few coordinates of w have a prior variance 1e9 .. 1e10 times the noise variance,
+    the others 1e3 .. 4e3 times less (prior condition number < 1e4). The first observations pin
+    blocks of coordinates one after the other, later ones are dense. After every direction has
+    been observed the posterior lives on the noise scale, so an absolute error of
+    eps * |prior covariance| left behind by a covariance-form (Kalman gain) update of an earlier
+    step is 1e-7 relative. All routes must agree with the 40-digit reference at posterior scale
+    whatever the order of the updates."""
+    Dw, Dy, ok = cell["Dw"], cell["Dy"], cell["ok"]
+    L = build.lib()
+    C = L.conditional
+    cls = C.ConditionalGaussianPDF if ok == "full" else C.ConditionalGaussianDiagPDF
+    nblk = -(-Dw // Dy)
+    N = nblk + 1
+    for rep in range(cell["reps"]):
+        rng = gen.rng_for(seed, "C11a", Dw, Dy, ok, rep)
+        info = {"part": "aniso", "Dw": Dw, "Dy": Dy, "N": N, "obs_class": ok, "rep": rep}
+        for attempt in range(20):
+            big = 10.0 ** rng.uniform(5.0, 5.7)
+            small = big / rng.uniform(1e3, 4e3)
+            nbig = int(rng.integers(1, Dw))
+            var = np.array([big] * nbig + [small] * (Dw - nbig))
+            A_ = rng.uniform(-0.25, 0.25, (Dw, Dw)) / Dw
+            Cm = np.eye(Dw) + A_ + A_.T
+            np.fill_diagonal(Cm, 1.0)
+            S0 = Cm * np.outer(np.sqrt(var), np.sqrt(var))
+            S0 = 0.5 * (S0 + S0.T)
+            noise = 10.0 ** rng.uniform(-4.3, -3.7)
+            Ss = [noise * gen.spd(rng, Dy, kappa=float(rng.choice([1.0, 10.0])), scale=1.0,
+                                  diag=(ok == "diag")) for _ in range(N)]
+            Ms = []
+            for i in range(N):
+                if i < nblk:
+                    M = np.zeros((Dy, Dw))
+                    for a in range(Dy):
+                        M[a, (i * Dy + a) % Dw] = 1.0
+                else:
+                    M = rng.standard_normal((Dy, Dw))
+                Ms.append(M)
+            bs = [0.1 * rng.standard_normal(Dy) for _ in range(N)]
+            m0 = rng.standard_normal(Dw)
+            if not (gen.in_domain(S0, kmax=1e4) and all(gen.in_domain(S, kmax=1e4) for S in Ss)):
+                rec.count("out_of_domain")
+                continue
+            w = m0 + 1e-3 * np.linalg.cholesky(S0) @ rng.standard_normal(Dw)
+            ys = [Ms[i] @ w + bs[i] + np.linalg.cholesky(Ss[i]) @ rng.standard_normal(Dy)
+                  for i in range(N)]
+            mu_ref, S_ref, _, _ = posterior_mp(m0, S0, Ms, bs, Ss, ys)
+            if gen.in_domain(S_ref, kmax=1e4):
+                break
+            rec.count("out_of_domain")
+        else:
+            continue
+        rec.cell(["aniso", Dw, Dy, ok], True)
+        rec.count("anisotropic_vague_prior_cells")
+        info["variance_ratio_prior_to_noise"] = float(big / noise)
+        ns_mu = np.max(np.abs(mu_ref)) + 1e-3
+        ns_S = np.max(np.abs(S_ref))
+        prior = L.pdf.GaussianPDF(Sigma=J(S0[None]), mu=J(m0[None]))
+        cb = cls(M=J(np.stack(Ms)), b=J(np.stack(bs)), Sigma=J(np.stack(Ss)))
+        orders = [list(range(N)), list(range(nblk))[::-1] + [N - 1]] + \
+            [list(rng.permutation(nblk)) + [N - 1] for _ in range(2)] + [list(rng.permutation(N))]
+        for order in orders:
+            # every intermediate posterior is an *input* of the next update: it has to be in the
+            # domain too. Its plain condition number is 1e6 .. 1e10 here by construction (pinned
+            # next to vague coordinates); what float64 factorisations are sensitive to is the
+            # condition number after diagonal equilibration (van der Sluis), so orders are judged
+            # while that stays <= 1e4 - a dense observation of a still vague prior leaves tight
+            # directions that are not axis aligned, and is skipped
+            dom = True
+            for k in range(1, N):
+                pre = order[:k]
+                _, S_k, _, _ = posterior_mp(m0, S0, [Ms[i] for i in pre], [bs[i] for i in pre],
+                                            [Ss[i] for i in pre], [ys[i] for i in pre])
+                dd = np.sqrt(np.abs(np.diag(S_k)))
+                if not gen.in_domain(S_k / np.outer(dd, dd), kmax=1e4):
+                    dom = False
+                    break
+            if not dom:
+                rec.count("aniso_order_with_ill_scaled_intermediate_skipped")
+                continue
+            rec.count("aniso_orders_judged")
+            p = prior
+            okrun = True
+            for i in order:
+                ci = lc.call(rec, "slice", lambda: cb.slice(JI([int(i)])), info)
+                post = None if ci is None else lc.call(
+                    rec, "affine_conditional_transformation",
+                    lambda: ci.affine_conditional_transformation(p), info)
+                if post is None:
+                    okrun = False
+                    break
+                p = post.condition_on_x(J(ys[i][None]))
+            if not okrun:
+                continue
+            d = dict(info, route="sequential", order=[int(i) for i in order])
+            rec.close("sequential posterior mean (anisotropic vague prior)", p.mu, mu_ref[None],
+                      ns=ns_mu, detail=d, mech="route-a-posterior-mu:anisotropic-vague-prior")
+            rec.close("sequential posterior covariance (anisotropic vague prior)", p.Sigma,
+                      S_ref[None], ns=ns_S, detail=d,
+                      mech="route-a-posterior-Sigma:anisotropic-vague-prior")
+            # precision and covariance of the filtered density must still describe one Gaussian
+            rec.close("filtered precision x covariance = I (anisotropic vague prior)",
+                      np.asarray(p.Lambda)[0] @ np.asarray(p.Sigma)[0], np.eye(Dw), ns=1.0,
+                      detail=d, mech="route-a-posterior-coherence:anisotropic-vague-prior")
+        f = lc.call(rec, "set_y", lambda: cb.set_y(J(np.stack(ys))), info)
+        fp = None if f is None else lc.call(rec, "product", lambda: f.product(), info)
+        u = None if fp is None else lc.call(rec, "multiply", lambda: prior.multiply(fp), info)
+        dn = None if u is None else lc.call(rec, "get_density", lambda: u.get_density(), info)
+        if dn is not None:
+            d = dict(info, route="factors")
+            rec.close("factor-route posterior mean (anisotropic vague prior)", dn.mu, mu_ref[None],
+                      ns=ns_mu, detail=d, mech="route-c-posterior-mu:anisotropic-vague-prior")
+            rec.close("factor-route posterior covariance (anisotropic vague prior)", dn.Sigma,
+                      S_ref[None], ns=ns_S, detail=d,
+                      mech="route-c-posterior-Sigma:anisotropic-vague-prior")
+
+
 def run_cell(cell, rec, seed):
-    (run_static if cell["part"] == "static" else run_ssm)(cell, rec, seed)
+    {"static": run_static, "ssm": run_ssm, "aniso": run_aniso}[cell["part"]](cell, rec, seed)
 
 
 def classify(mech, d):
